@@ -53,6 +53,9 @@ CLAIMED = {
  'C18': ('property-based testing: generated lists of starting points (every spelling of one directory, files, links, missing names, duplicates) given as operands or through -files0-from (file / stdin) vs per-root reference walks; metamorphic operands == files0',
          'Exploration: tens of thousands of lists of 0-5 starting points; stdout equals the in-order concatenation of the reference walk of each starting point with its spelling preserved; unexaminable starting points are diagnosed with non-zero exit while the others are still processed; -files0-from lists (names starting with -, containing newlines, empty names, with/without final NUL) equal the operand form whenever expressible.',
          'Trusts the reference walker; -sorted is given; an empty files0 list is not compared with no operands.', 'DESIGN.md §3 C18'),
+ 'C16': ('property-based testing + bounded-exhaustive enumeration: format strings generated from the statement\'s grammar rendered by find on a tree of every creatable type x starting-point spellings x follow modes vs an independent renderer; identity checks (%p == -print, %H/%P recomposition, %y/%Y vs -type/-xtype)',
+         'Exploration: every format of <= 2 (thorough 3) components over a 31-component alphabet plus tens of thousands of random formats (escapes, %%, 15 directives with flag and width, multi-byte literals) on entries of all types under -P/-H/-L and eleven spellings of the starting point, through -printf and -fprintf; output equals the independent rendering byte for byte.',
+         'Reference renderer written from the statement over std::fs metadata; padding asserted on ASCII values; %f/%h left open where the last component / the part before it is not in normal form; one known finding (%H below a starting point not in normal form) excluded by construction and probed by the identities sub-run.', 'DESIGN.md §3 C16'),
 }
 hooks_commits = subprocess.run(['git','-C','/repo','log','--format=%H %s'],capture_output=True,text=True).stdout.splitlines()
 hook_shas = [l.split()[0] for l in hooks_commits if 'verif hooks' in l]
